@@ -25,8 +25,26 @@ var perturbLevel atomic.Int32
 // SetPerturb selects the perturbation profile for the executions that follow.
 func SetPerturb(level int) { perturbLevel.Store(int32(level)) }
 
+// onBigEnqueue, when set, is called (once) when the scheduler loop accepts a
+// job with at least 65536 dependencies.
+var onBigEnqueue atomic.Pointer[func()]
+
+// SetOnBigEnqueue registers f (nil to clear).
+func SetOnBigEnqueue(f func()) {
+	if f == nil {
+		onBigEnqueue.Store(nil)
+		return
+	}
+	onBigEnqueue.Store(&f)
+}
+
 func init() {
 	scheduler.VerifHook = func(p int, key uintptr, s *scheduler.Scheduler, j *scheduler.ScheduledJob, a, b, c int) {
+		if p == scheduler.VerifEnq && j != nil {
+			if f := onBigEnqueue.Load(); f != nil && len(scheduler.VerifDeps(j)) >= 65536 {
+				(*f)()
+			}
+		}
 		lvl := perturbLevel.Load()
 		if lvl == 0 {
 			return
